@@ -77,6 +77,12 @@ CHECKS.update({
          "TS 24.008 / TS 24.501 / TS 23.040 / TS 23.038 decoders in /verif; tz database via time/tzdata.", "5/C17"),
 })
 
+CHECKS.update({
+ "C18": ("conv", "reference-model + totality monitor: API-built UE policy messages vs. a reference serialiser with computed lengths and TS 24.008 PLMN octets; decoder sweeps of short strings",
+         "Commands/rejects/completes built through the API with 0..5 sublists × 0..3 instructions × 0..3 parts are compared byte for byte with a reference serialiser and field by field after decode(encode); every (MCC, MNC) pair the setters accept is compared with PlmnIDToNas; the three decoders see every byte string of <= 2 (thorough 3) octets and mutated encodings. PLMN pairs exhaustive, messages sampled.",
+         "Integer MCC/MNC: MNC < 100 is a 2-digit MNC; Result.Cause forced to 0x6F by the library.", "5/C18"),
+})
+
 NOT_YET = {
 }
 
